@@ -76,6 +76,7 @@ U_NUMBER_FORM = "number-from-not-a-feel-literal"
 U_NUMBER_SEP = "number-separators-ambiguous"
 U_STRING_OF_COMPOSITE = "string-of-list-or-context"
 U_SORT = "sort-precedes-not-a-strict-order-on-the-items"
+U_INTERMEDIATE_OVERFLOW = "aggregate-whose-intermediate-result-is-out-of-range"
 U_UTF16_ORDER = "string-order-differs-between-utf16-and-code-points"
 
 
@@ -878,13 +879,28 @@ def f_max(args):
     return _minmax(args, max)
 
 
+MAX128 = Fraction(Decimal("9.999999999999999999999999999999999E+6144"))
+MIN_NORMAL128 = Fraction(1, 10 ** 6143)
+
+
+def _running_sum(items):
+    """(decimal128 sum taken left to right, did a partial sum leave the range?)"""
+    t = Decimal(0)
+    for x in items:
+        t = CTX.add(t, x)
+        if not t.is_finite():
+            return t, True
+    return t, False
+
+
 def f_sum(args):
     items = _numbers(_items(args))
     if not items:
         return NULL
-    t = Decimal(0)
-    for x in items:
-        t = CTX.add(t, x)
+    t, over = _running_sum(items)
+    if over:
+        # out of range: null when the sum itself is, undecided when only a partial sum is
+        return NULL if abs(sum(Fraction(x) for x in items)) > MAX128 else Unspec(U_INTERMEDIATE_OVERFLOW)
     return Exact(t)
 
 
@@ -892,9 +908,9 @@ def f_mean(args):
     items = _numbers(_items(args))
     if not items:
         return NULL
-    t = Decimal(0)
-    for x in items:
-        t = CTX.add(t, x)
+    t, over = _running_sum(items)
+    if over:
+        return Unspec(U_INTERMEDIATE_OVERFLOW)      # the mean itself is never out of range
     return Exact(CTX.divide(t, Decimal(len(items))))
 
 
@@ -906,7 +922,10 @@ def f_median(args):
     n = len(xs)
     if n % 2:
         return Exact(xs[n // 2])
-    return Exact(CTX.divide(CTX.add(xs[n // 2 - 1], xs[n // 2]), Decimal(2)))
+    two = CTX.add(xs[n // 2 - 1], xs[n // 2])
+    if not two.is_finite():
+        return Unspec(U_INTERMEDIATE_OVERFLOW)
+    return Exact(CTX.divide(two, Decimal(2)))
 
 
 def f_mode(args):
@@ -932,6 +951,10 @@ def f_stddev(args):
     n = len(fr)
     mean = sum(fr) / n
     var = sum((x - mean) ** 2 for x in fr) / (n - 1)
+    if _running_sum(items)[1] or any((x - mean) ** 2 > MAX128 for x in fr) or var * (n - 1) > MAX128:
+        return Unspec(U_INTERMEDIATE_OVERFLOW)
+    if any(0 < (x - mean) ** 2 < MIN_NORMAL128 for x in fr):
+        return Unspec(U_INTERMEDIATE_OVERFLOW)      # a square below the normal range loses digits or vanishes before the root is taken
     return Approx(var)
 
 
